@@ -137,7 +137,36 @@ def td_to_us(v):
     raise Unsupported(f"timedelta term of {v!r}")
 
 
-def floordiv_term(a, b):
+FDIV = z3.Function("py_floordiv", z3.IntSort(), z3.IntSort(), z3.IntSort())  # a // b for symbolic b > 0
+
+
+def floordiv_axioms():
+    """theory of // for a symbolic positive divisor (E-matching friendly; avoids z3's non-linear div)"""
+    a, a2, b = z3.Ints("fd_a fd_a2 fd_b")
+    return [
+        z3.ForAll([a, b], z3.Implies(b > 0, z3.And(b * FDIV(a, b) <= a, a < b * FDIV(a, b) + b)), patterns=[FDIV(a, b)]),
+        z3.ForAll([a, a2, b], z3.Implies(z3.And(b > 0, a <= a2), FDIV(a, b) <= FDIV(a2, b)),
+                  patterns=[z3.MultiPattern(FDIV(a, b), FDIV(a2, b))]),
+        z3.ForAll([a, b], z3.Implies(z3.And(b > 0, a >= 0), FDIV(a, b) >= 0), patterns=[FDIV(a, b)]),
+        z3.ForAll([a, b], z3.Implies(z3.And(b > 0, a >= 0, a < b), FDIV(a, b) == 0), patterns=[FDIV(a, b)]),
+    ]
+
+
+def floordiv_term(a, b, it=None):
+    b = z3.simplify(b) if z3.is_expr(b) else z3.IntVal(b)
+    if z3.is_int_value(b):
+        bv = b.as_long()
+        if bv > 0:
+            return a / b
+        return (-a) / (-b)
+    if it is not None:
+        if not it.path.entails(b > 0):
+            raise Unsupported("floor division by a symbolic divisor that is not known to be positive")
+        if not getattr(it.path, "_fdiv_axioms", False):
+            it.path._fdiv_axioms = True
+            for ax in floordiv_axioms():
+                it.path.add_hyp(ax)
+        return FDIV(a, b)
     return z3.If(b > 0, a / b, (-a) / (-b))
 
 
@@ -216,10 +245,10 @@ def binop(it, opname, l, r, inplace=False):
             return mk_int(a * b)
         if opname == "floordiv":
             _nonzero(it, b)
-            return mk_int(floordiv_term(a, b))
+            return mk_int(floordiv_term(a, b, it))
         if opname == "mod":
             _nonzero(it, b)
-            return mk_int(a - b * floordiv_term(a, b))
+            return mk_int(a - b * floordiv_term(a, b, it))
         if opname == "truediv":
             _nonzero(it, b)
             return Sym(z3.ToReal(a) / z3.ToReal(b), "ratio")
@@ -307,18 +336,18 @@ def try_ite(it, cond, body, orelse, env):
     """Evaluate both branches of a conditional expression under their conditions; if both are scalar and of
     the same Python type, return an ite term instead of forking."""
     p = it.path
-    n_pc = len(p.pc)
-    pos, ndec = p.pos, len(p.decisions)
+    temp = p.__dict__.setdefault("temp", [])
+    pos = p.pos
+    temp.append(cond)
     try:
-        p.pc.append(cond)
         a = it.ev(body, env)
-        del p.pc[n_pc:]
-        p.pc.append(z3.Not(cond))
+    finally:
+        temp.pop()
+    temp.append(z3.Not(cond))
+    try:
         b = it.ev(orelse, env)
-        del p.pc[n_pc:]
-    except Undecided:
-        del p.pc[n_pc:]
-        raise
+    finally:
+        temp.pop()
     if p.pos != pos:
         # the branches forked themselves: cannot merge soundly with this simple scheme
         raise Unsupported("fork inside a merged conditional expression")
@@ -496,16 +525,29 @@ def slice_bounds(it, sl, length):
                 return _neg_slice_bounds(it, sl, n, st)
     st = as_int_term(step)
 
+    P = it.path.pick
+    unit = z3.is_int_value(z3.simplify(st)) and z3.simplify(st).as_long() == 1
+    # fast path: bounds already inside [0, n] and ordered -> no clamping at all (one query)
+    if sl.start is not None and sl.stop is not None:
+        a, b = as_int_term(sl.start), as_int_term(sl.stop)
+        if it.path.entails(z3.And(a >= 0, a <= b, b <= n)):
+            span = z3.simplify(b - a)
+            count = span if unit else floordiv_term(span + st - 1, st, it)
+            return z3.simplify(a), z3.simplify(b), z3.simplify(st), z3.simplify(count)
+
     def clamp(v, default):
         if v is None:
             return default
         t = as_int_term(v)
-        return z3.If(t < 0, z3.If(t + n < 0, 0, t + n), z3.If(t > n, n, t))
+        return P(t < 0, P(t + n < 0, z3.IntVal(0), t + n), P(t > n, n, t))
 
     start = clamp(sl.start, z3.IntVal(0))
     stop = clamp(sl.stop, n)
-    span = stop - start
-    count = z3.If(span <= 0, 0, (span + st - 1) / st)
+    span = z3.simplify(stop - start)
+    if unit:
+        count = P(span <= 0, z3.IntVal(0), span)
+    else:
+        count = P(span <= 0, z3.IntVal(0), floordiv_term(span + st - 1, st, it))
     return z3.simplify(start), z3.simplify(stop), z3.simplify(st), z3.simplify(count)
 
 
